@@ -488,16 +488,18 @@ def State.ackCore (s : State) (env : Env) (ranges : List Range) (lvl : Level) (n
         if removed.isEmpty then (s, {})
         else s.ackTail env lvl now largest sp h2 evs removed (probesFrames stash') acc.length
 
+/-- `ReceivedAck`: "Servers complete address validation when a protected packet is received." -/
+def State.completeValidation (s : State) (env : Env) (lvl : Level) (now : Time) : State :=
+  if s.isClient ∧ !s.peerCompleted ∧ (lvl = .handshake ∨ lvl = .oneRTT)
+  then ({ s with peerCompleted := true } : State).setTimer env now else s
+
 /-- `ReceivedAck` -/
 def State.receivedAck (s : State) (env : Env) (ranges : List Range) (lvl : Level) (now : Time) : State × Out :=
   match s.getSpace lvl, ranges.head?, ranges.getLast? with
   | some sp, some top, some bot =>
     if top.2 > sp.largestSent then (s, { res := .err .ackUnsent })
     else
-      -- Servers complete address validation when a protected packet is received.
-      let s := if s.isClient ∧ !s.peerCompleted ∧ (lvl = .handshake ∨ lvl = .oneRTT)
-        then ({ s with peerCompleted := true } : State).setTimer env now else s
-      s.ackCore env ranges lvl now sp bot.1 top.2
+      (s.completeValidation env lvl now).ackCore env ranges lvl now sp bot.1 top.2
   | none, _, _ => (s, { res := .panic .nilSpace })
   | _, _, _ => (s, { res := .panic .emptyAck })
 
